@@ -762,11 +762,16 @@ class ErrorUnslicer(slicer.ScopedUnslicer):
 
 
 def truncate(s, limit):
-    # the limit applies to the UTF-8 encoded form, which is what is sent over
-    # the wire and what the receiving FailureConstraint measures
+    # returns the UTF-8 encoded form, which is what is sent over the wire and
+    # what the receiving FailureConstraint measures, cut to 'limit' bytes (on
+    # a character boundary). Text that cannot be encoded (lone surrogates, as
+    # in the str() of an OSError about an undecodable filename) is escaped
+    # rather than allowed to raise.
     assert limit > 3
-    if s and len(six.ensure_binary(s)) > limit:
-        s = six.ensure_binary(s)[:limit-3].decode("utf-8", "ignore") + ".."
+    if isinstance(s, str):
+        s = s.encode("utf-8", "backslashreplace")
+    if s and len(s) > limit:
+        s = s[:limit-3].decode("utf-8", "ignore").encode("utf-8") + b".."
     return s
 
 # failures are sent as Copyables
@@ -802,10 +807,10 @@ class FailureSlicer(slicer.BaseSlicer):
             raise RuntimeError("not implemented yet")
             #state['value'] = failure2Copyable(obj.value, banana.unsafeTracebacks)
         elif isinstance(obj.type, str):
-            state['value'] = str(obj.value)
+            state['value'] = reflect.safe_str(obj.value)
             state['type'] = obj.type # a string
         else:
-            state['value'] = str(obj.value) # Exception instance
+            state['value'] = reflect.safe_str(obj.value) # Exception instance
             state['type'] = reflect.qual(obj.type) # Exception class
         # TODO: I suspect that f.value may be getting a copy of the
         # traceback, because I've seen it be 1819 bytes at one point. I had
